@@ -103,8 +103,10 @@ func VerifC03Unauthenticated() {
 	conn := &cj.VerifScriptConn{Name: "probe", DeadlineErr: -1}
 	for i := 0; i < nchunks; i++ {
 		sizes := verifChunk
-		if i > 0 && !verifnd.Thorough() {
-			sizes = verifChunk[:4] // bound (quick): buffer-filling and larger segments as the first segment only
+		if i > 0 && (!verifnd.Thorough() || nregs > 0) {
+			// bound: buffer-filling and larger segments as the first segment only (thorough: also as
+			// the second one against an empty registry)
+			sizes = verifChunk[:4]
 		}
 		if nregs == 2 && !verifnd.Thorough() {
 			sizes = []int{1, 85, 5000} // bound (quick): three segment sizes against two registrations
